@@ -1,7 +1,8 @@
 (* Correspondence for M-POOL: the harness (harness/src/bin/pool.rs) prints, after every op, the
    events, the pool snapshot (verif-hooks) and the set of woken requests; [trace] computes the same
    for the model.  Each property compares its own projection of the observations (DESIGN 6.3). *)
-From HD Require Import common.Base http.Model pool.Model pool.Spec.
+From HD Require Import common.Base http.Model pool.Model pool.Spec pool.SpecC04d.
+From HD Require Import pool.SpecC15d.
 Local Open Scope string_scope.
 
 (* [k_drained]: the driver appended the closing procedure [drain_ops] (checked, not trusted: see
@@ -89,12 +90,12 @@ Definition mon_of (which : nat) (c : case) (o : obs) : bool :=
   match which with
   | 2 => mon_C02 (k_cfg c) (k_ops c) o
   | 3 => mon_C03 (k_cfg c) (k_ops c) (drained_b c) o
-  | 4 => mon_C04 (k_cfg c) (k_ops c) o
+  | 4 => mon_C04 (k_cfg c) (k_ops c) o && mon_C04_dial (k_cfg c) (k_ops c) o
   | 5 => mon_C05 (k_cfg c) (k_ops c) o
   | 6 => mon_C06 (k_cfg c) (k_ops c) o
   | 14 => mon_C14 (k_cfg c) (k_ops c) o
-  | 40 => mon_C04_but_D6 (k_cfg c) (k_ops c) o
-  | 15 => mon_C15 (k_cfg c) (k_ops c) o
+  | 40 => mon_C04_but_D6 (k_cfg c) (k_ops c) o && mon_C04_dial (k_cfg c) (k_ops c) o
+  | 15 => mon_C15_all (k_cfg c) (k_ops c) (drained_b c) o
   | _ => mon_C02 (k_cfg c) (k_ops c) o && mon_C03 (k_cfg c) (k_ops c) (drained_b c) o && mon_C04 (k_cfg c) (k_ops c) o
          && mon_C05 (k_cfg c) (k_ops c) o && mon_C06 (k_cfg c) (k_ops c) o && mon_C14 (k_cfg c) (k_ops c) o
          && mon_C15 (k_cfg c) (k_ops c) o
